@@ -447,9 +447,12 @@ class ObjNP:
         return None
 
     def sqrt(self, x):
-        if isinstance(x, SR):
+        if hasattr(x, "sqrt") and not isinstance(x, np.ndarray):
             return x.sqrt()
         return np.sqrt(x)
+
+    def copy(self, x):
+        return np.array(x, dtype=object, copy=True) if isinstance(x, np.ndarray) and x.dtype == object else np.copy(x)
 
     def __getattr__(self, name):
         return getattr(np, name)
